@@ -235,7 +235,10 @@ PROPS['C17'] = {
 PROPS['C19'] = {
     'theorems': ['RQ.Push.C19_key_below', 'RQ.Push.C19_unsafe', 'RQ.Push.C19_refuse', 'RQ.Push.C19_patch_refused'],
     'verdict': 'C19',
-    'jobs': push_jobs(['unsafe=75'], ['unsafe=75', 'inv=2']) + [{'quick': ['path', 'seed={seed}', 'n=20000', 'pieces=3'],
+    'jobs': push_jobs(['unsafe=75'], ['unsafe=75', 'inv=2']) +
+            # parallel runs: a worker that runs ahead of a failing patch meets the unsafe name (its error is dropped: nothing of it may stay)
+            [{'quick': ['push', 'seed={seed}7', 'n=3000', 'unsafe=60', 'threads=2,3,4', 'patches=6'], 'thorough': ['push', 'seed={seed}7', 'n=30000', 'unsafe=60', 'threads=2,3,4,8', 'patches=6']}] +
+            [{'quick': ['path', 'seed={seed}', 'n=20000', 'pieces=3'],
                                                                  'thorough': ['path', 'seed={seed}', 'n=400000', 'pieces=4']}],
     'nontrivial': lambda l: l.startswith('P|') or '2e2e' in l or '2f746d70' in l,
     'histogram': push_hist,
